@@ -7,6 +7,7 @@ import (
 	"go/constant"
 	"go/token"
 	"go/types"
+	"sort"
 	"strings"
 
 	"golang.org/x/tools/go/ssa"
@@ -21,7 +22,7 @@ func init() {
 		Floor:  90,
 		MinCtl: 2,
 		Ctl:    []string{"internal__phase1__iter1.go.txt"},
-		Run:   runIter1,
+		Run:    runIter1,
 	})
 	register(&Rule{
 		ID:    "SHIFT-1",
@@ -450,40 +451,73 @@ func runAgg1(m *Model, r *RuleResult) {
 			}
 		})
 	}
-	updates := map[*ssa.Function]map[int]bool{}
+	updates := map[*ssa.Function]map[int]map[int]bool{}
 	defer func() { agg1CallerSide(m, r, updates) }()
 	for _, f := range m.Src {
-		// candidate cells: pointer parameters and free variables to numeric cells
-		var cells []ssa.Value
+		// candidate cells: numeric pointees of pointer parameters / free variables, and numeric fields of a struct that a
+		// pointer parameter (typically the receiver holding the traversal state) points to
+		type cellT struct {
+			name  string
+			addrs []ssa.Value // every address value that denotes the cell in this function
+			param int
+			field int
+		}
+		var cells []cellT
+		isNum := func(t types.Type) bool {
+			b, ok := t.Underlying().(*types.Basic)
+			return ok && b.Info()&types.IsNumeric != 0
+		}
 		for _, p := range f.Params {
-			if pt, ok := p.Type().Underlying().(*types.Pointer); ok {
-				if b, ok := pt.Elem().Underlying().(*types.Basic); ok && b.Info()&types.IsNumeric != 0 {
-					cells = append(cells, p)
+			pt, ok := p.Type().Underlying().(*types.Pointer)
+			if !ok {
+				continue
+			}
+			if isNum(pt.Elem()) {
+				cells = append(cells, cellT{p.Name(), []ssa.Value{p}, paramIndex(f, p), -1})
+				continue
+			}
+			if st, ok := pt.Elem().Underlying().(*types.Struct); ok && p.Referrers() != nil {
+				byField := map[int][]ssa.Value{}
+				for _, ref := range *p.Referrers() {
+					if fa, ok := ref.(*ssa.FieldAddr); ok && fa.X == ssa.Value(p) && isNum(st.Field(fa.Field).Type()) {
+						byField[fa.Field] = append(byField[fa.Field], fa)
+					}
+				}
+				var fields []int
+				for fi := range byField {
+					fields = append(fields, fi)
+				}
+				sort.Ints(fields)
+				for _, fi := range fields {
+					cells = append(cells, cellT{p.Name() + "." + st.Field(fi).Name(), byField[fi], paramIndex(f, p), fi})
 				}
 			}
 		}
 		for _, p := range f.FreeVars {
-			if pt, ok := p.Type().Underlying().(*types.Pointer); ok {
-				if b, ok := pt.Elem().Underlying().(*types.Basic); ok && b.Info()&types.IsNumeric != 0 {
-					cells = append(cells, p)
-				}
+			if pt, ok := p.Type().Underlying().(*types.Pointer); ok && isNum(pt.Elem()) {
+				cells = append(cells, cellT{p.Name(), []ssa.Value{p}, -1, -1})
 			}
 		}
 		for _, cell := range cells {
-			if cell.Referrers() == nil {
-				continue
+			isAddr := map[ssa.Value]bool{}
+			var refs []ssa.Instruction
+			for _, a := range cell.addrs {
+				isAddr[a] = true
+				if a.Referrers() != nil {
+					refs = append(refs, *a.Referrers()...)
+				}
 			}
 			// running extremum update: store cell <- max/min(load cell, ...)
 			var upd *ssa.Store
 			updLoads := map[ssa.Value]bool{}
-			for _, ref := range *cell.Referrers() {
+			for _, ref := range refs {
 				st, ok := ref.(*ssa.Store)
-				if !ok || st.Addr != cell {
+				if !ok || !isAddr[st.Addr] {
 					continue
 				}
 				if call, ok := isMinMaxCall(st.Val); ok {
 					for _, a := range call.Call.Args {
-						if u, ok := a.(*ssa.UnOp); ok && u.Op == token.MUL && u.X == cell {
+						if u, ok := a.(*ssa.UnOp); ok && u.Op == token.MUL && isAddr[u.X] {
 							upd = st
 							updLoads[u] = true
 						}
@@ -493,19 +527,22 @@ func runAgg1(m *Model, r *RuleResult) {
 			if upd == nil {
 				continue
 			}
-			if pi := paramIndex(f, cell); pi >= 0 {
+			if cell.param >= 0 {
 				if updates[f] == nil {
-					updates[f] = map[int]bool{}
+					updates[f] = map[int]map[int]bool{}
 				}
-				updates[f][pi] = true
+				if updates[f][cell.param] == nil {
+					updates[f][cell.param] = map[int]bool{}
+				}
+				updates[f][cell.param][cell.field] = true
 			}
 			if !recursive[f] && !calledInLoop[f] && f.Parent() == nil {
 				continue
 			}
-			key := "running-extremum:" + funcKey(f) + ":" + cell.Name()
+			key := "running-extremum:" + funcKey(f) + ":" + cell.name
 			ctl := m.FuncIsPosctl(f)
 			var bad []string
-			for _, ref := range *cell.Referrers() {
+			for _, ref := range refs {
 				u, ok := ref.(*ssa.UnOp)
 				if !ok || u.Op != token.MUL || updLoads[u] {
 					continue
@@ -562,7 +599,7 @@ func runAgg1(m *Model, r *RuleResult) {
 
 // agg1CallerSide: a local cell whose address is handed, inside a loop, to a function that max/min-updates it is a running
 // extremum for the duration of that loop: loads of the cell inside the loop must not flow into heap stores.
-func agg1CallerSide(m *Model, r *RuleResult, updates map[*ssa.Function]map[int]bool) {
+func agg1CallerSide(m *Model, r *RuleResult, updates map[*ssa.Function]map[int]map[int]bool) {
 	for _, f := range m.Src {
 		loops := naturalLoops(f)
 		if len(loops) == 0 {
@@ -579,64 +616,82 @@ func agg1CallerSide(m *Model, r *RuleResult, updates map[*ssa.Function]map[int]b
 			}
 			outer := ls[len(ls)-1]
 			for _, cal := range m.Callees(ci) {
-				for i := range updates[cal] {
-					args := ci.Common().Args
-					if i >= len(args) {
-						continue
-					}
-					cell, ok := args[i].(*ssa.Alloc)
-					if !ok {
-						continue
-					}
-					key := "running-extremum:" + funcKey(f) + ":" + cell.Comment + "@caller"
-					for _, o := range r.Obligations {
-						if o.Key == key {
-							return
-						}
-					}
-					var bad []string
-					for _, ref := range *cell.Referrers() {
-						u, ok := ref.(*ssa.UnOp)
-						if !ok || u.Op != token.MUL || !outer.Body[u.Block()] {
+				for i, fields := range updates[cal] {
+					for field := range fields {
+						args := ci.Common().Args
+						if i >= len(args) {
 							continue
 						}
-						seen := map[ssa.Value]bool{}
-						var flow func(v ssa.Value)
-						flow = func(v ssa.Value) {
-							if seen[v] || v.Referrers() == nil {
-								return
-							}
-							seen[v] = true
-							for _, r2 := range *v.Referrers() {
-								switch x := r2.(type) {
-								case *ssa.BinOp:
-									flow(x)
-								case *ssa.Phi:
-									flow(x)
-								case *ssa.Convert:
-									flow(x)
-								case *ssa.Store:
-									if x.Val == v {
-										ai := classifyAddr(x.Addr)
-										if len(ai.Locs) > 0 && !isFreshObject(ai.Base, 0) {
-											bad = append(bad, fmt.Sprintf("the running value read at %s is stored into %s at %s", m.Pos(u.Pos()), ai.Locs[0], m.Pos(x.Pos())))
-										}
-									}
-								case *ssa.MapUpdate:
-									if x.Value == v {
-										bad = append(bad, fmt.Sprintf("the running value read at %s is stored into a map at %s", m.Pos(u.Pos()), m.Pos(x.Pos())))
-									}
+						cell, ok := args[i].(*ssa.Alloc)
+						if !ok {
+							continue
+						}
+						key := "running-extremum:" + funcKey(f) + ":" + cell.Comment + "@caller"
+						// the loads of the cell: of the local itself, or of its field
+						var cellRefs []ssa.Instruction
+						if field < 0 {
+							cellRefs = *cell.Referrers()
+						} else {
+							key = fmt.Sprintf("running-extremum:%s:%s.#%d@caller", funcKey(f), cell.Comment, field)
+							for _, ref := range *cell.Referrers() {
+								if fa, ok := ref.(*ssa.FieldAddr); ok && fa.Field == field && fa.Referrers() != nil {
+									cellRefs = append(cellRefs, *fa.Referrers()...)
 								}
 							}
 						}
-						flow(u)
-					}
-					ctl := m.FuncIsPosctl(f)
-					if len(bad) > 0 {
-						r.add(Obligation{Key: key, Pos: m.Pos(in.Pos()), Desc: "running extremum consumed inside the loop that is still updating it", Verdict: "violation",
-							Detail: strings.Join(bad, "; ") + ": values derived from it are relative to whatever the maximum was at that moment, not to the final one", Control: ctl})
-					} else {
-						r.add(Obligation{Key: key, Pos: m.Pos(in.Pos()), Desc: "the running extremum is read only after the loop that updates it", Verdict: "holds", Control: ctl})
+						dup := false
+						for _, o := range r.Obligations {
+							if o.Key == key {
+								dup = true
+							}
+						}
+						if dup {
+							continue
+						}
+						var bad []string
+						for _, ref := range cellRefs {
+							u, ok := ref.(*ssa.UnOp)
+							if !ok || u.Op != token.MUL || !outer.Body[u.Block()] {
+								continue
+							}
+							seen := map[ssa.Value]bool{}
+							var flow func(v ssa.Value)
+							flow = func(v ssa.Value) {
+								if seen[v] || v.Referrers() == nil {
+									return
+								}
+								seen[v] = true
+								for _, r2 := range *v.Referrers() {
+									switch x := r2.(type) {
+									case *ssa.BinOp:
+										flow(x)
+									case *ssa.Phi:
+										flow(x)
+									case *ssa.Convert:
+										flow(x)
+									case *ssa.Store:
+										if x.Val == v {
+											ai := classifyAddr(x.Addr)
+											if len(ai.Locs) > 0 && !isFreshObject(ai.Base, 0) {
+												bad = append(bad, fmt.Sprintf("the running value read at %s is stored into %s at %s", m.Pos(u.Pos()), ai.Locs[0], m.Pos(x.Pos())))
+											}
+										}
+									case *ssa.MapUpdate:
+										if x.Value == v {
+											bad = append(bad, fmt.Sprintf("the running value read at %s is stored into a map at %s", m.Pos(u.Pos()), m.Pos(x.Pos())))
+										}
+									}
+								}
+							}
+							flow(u)
+						}
+						ctl := m.FuncIsPosctl(f)
+						if len(bad) > 0 {
+							r.add(Obligation{Key: key, Pos: m.Pos(in.Pos()), Desc: "running extremum consumed inside the loop that is still updating it", Verdict: "violation",
+								Detail: strings.Join(bad, "; ") + ": values derived from it are relative to whatever the maximum was at that moment, not to the final one", Control: ctl})
+						} else {
+							r.add(Obligation{Key: key, Pos: m.Pos(in.Pos()), Desc: "the running extremum is read only after the loop that updates it", Verdict: "holds", Control: ctl})
+						}
 					}
 				}
 			}
